@@ -402,5 +402,84 @@ pub fn main(tier: Tier, replay: Option<String>) -> i32 {
         let b = json!({"parameters": 14, "deviation_values": sp.devs.len(), "max_simultaneous": max});
         jobs.push(job(sp, Strategy::Bfs, Some(tier.pick(40, 3000)), b));
     }
+    // the same configuration and the same definition files loaded with one dictionary after another: a value that
+    // indexes the larger matrix and not the smaller one has to be accepted with the former and rejected with the
+    // latter, whatever was loaded before in the process
+    {
+        let big = Arc::new(rect_space(9, 9, 1));
+        let small = Arc::new(rect_space(3, 3, 1));
+        let mut cases: Vec<(u8, Vec<bool>)> = Vec::new();
+        for p in 0..8u8 {
+            for order in [vec![true, false], vec![false, true], vec![true, false, true], vec![false, false], vec![true, true, false]] {
+                cases.push((p, order));
+            }
+        }
+        let n = cases.len();
+        jobs.push(job(
+            CaseSpace {
+                label: "config/one-set-of-files-several-dictionaries".into(),
+                cases,
+                check_fn: Box::new(move |(p, order): &(u8, Vec<bool>)| {
+                    let mut o = Outcome::new();
+                    o.nontrivial = true;
+                    let mut c = big.cfg_of(&[]);
+                    let v = 7i64;
+                    let pname = ["unk.def left id", "unk.def right id", "SimpleOov leftId", "SimpleOov rightId", "RegexOov leftId", "RegexOov rightId", "inhibitPair first member", "inhibitPair second member"][*p as usize];
+                    match p {
+                        0 => c.unk.0 = v,
+                        1 => c.unk.1 = v,
+                        2 => c.simple.0 = v,
+                        3 => c.simple.1 = v,
+                        4 => c.regex.0 = v,
+                        5 => c.regex.1 = v,
+                        6 => c.inhibit.0 = v,
+                        _ => c.inhibit.1 = v,
+                    }
+                    // one definition file for the whole sequence, written once
+                    let tid = format!("{:?}", std::thread::current().id()).replace(|ch: char| !ch.is_ascii_digit(), "");
+                    let unk_name = format!("unk_c20_seq_{}.def", tid);
+                    let (_, unk) = big.plugins_of(&c);
+                    std::fs::write(big.dir.join(&unk_name), &unk).expect("write unk.def");
+                    for (step, &use_big) in order.iter().enumerate() {
+                        o.evaluations += 1;
+                        let rs = if use_big { &big } else { &small };
+                        let verdict = rs.in_range(&c);
+                        let (mut plugins, _) = rs.plugins_of(&c);
+                        plugins["oovProviderPlugin"][1]["unkDef"] = json!(unk_name);
+                        let ctx = format!("{} = {}, load {} of the sequence {:?} (true = dictionary with a 9x9 matrix, false = 3x3), same configuration files", pname, v, step + 1, order);
+                        match catch(|| load(&big.dir, &plugins, rs.system.clone(), vec![])) {
+                            Err(pn) => o.fail(Failure::panic(&format!("{} loading", ctx), &pn)),
+                            Ok(Err(_)) => {
+                                o.count("rejected", 1);
+                                if verdict.is_ok() {
+                                    o.fail(Failure::new("valid-configuration-rejected", format!("{}: every value is in range but loading failed", ctx)));
+                                }
+                            }
+                            Ok(Ok(dict)) => {
+                                o.count("accepted", 1);
+                                if let Err(why) = &verdict {
+                                    o.fail(Failure::new("out-of-range-accepted", format!("{}: loading succeeded although {}", ctx, why)));
+                                } else {
+                                    let dict: Dict = Arc::new(dict);
+                                    for t in probe_texts() {
+                                        if let Err(pn) = catch(|| analyze(&dict, Mode::C, t)) {
+                                            o.fail(Failure::panic(&format!("{} analysing {:?}", ctx, t), &pn));
+                                            break;
+                                        }
+                                    }
+                                }
+                            }
+                        }
+                    }
+                    o.observe(&(*p, order.clone()));
+                    o
+                }),
+                describe_fn: Box::new(|(p, order): &(u8, Vec<bool>)| json!({"parameter": p, "dictionaries_in_turn": order})),
+            },
+            Strategy::Bfs,
+            Some(120),
+            json!({"sequences": n, "matrices": ["9x9", "3x3"], "value": 7}),
+        ));
+    }
     drive(rep, jobs, replay)
 }
